@@ -111,13 +111,40 @@ class Registry:
         return next(c for c in self.all_contracts() if c.cid == cid)
 
     def other_facets(self, con):
-        return [c for c in self.facets.get(con.target, []) if c is not con]
+        """(kept for the call-site code) no other facet is conjoined: a call site uses ONE contract of the callee, see
+        contract_for_call"""
+        return []
+
+    BASE_GROUPS = ('process',)    # contracts every group builds on (ProcessStatus, C11)
+
+    def cross_group_ok(self, cur, con):
+        return con.target in cur.attrs.get('use_contracts', ())
+
+    GROUPS = {}     # contract module -> group name (module-level GROUP = '...' of the contract file)
+
+    def group_of(self, con):
+        return self.GROUPS.get(con.module, con.module)
 
     def contract_for_call(self, fi, eng, selfv):
         con = self.contracts.get(fi.qualname)
         if con is None:
             return None
         cur = self.current
+        fs = self.facets.get(fi.qualname, [])
+        if cur is not None and len(fs) > 1:
+            # several contracts exist for this callee (written for different property groups, each verified on its own):
+            # the proof of `cur` uses the one of its own group (its preconditions are the ones its author established at
+            # the call sites), else the primary one.  Any single verified contract is sound at a call site.
+            g = self.group_of(cur)
+            same = ([c for c in fs if c.module == cur.module] or [c for c in fs if self.group_of(c) == g]
+                    or [c for c in fs if self.group_of(c) in self.BASE_GROUPS])
+            if same:
+                con = next((c for c in same if not c.assumed), same[0])
+        if cur is not None and self.group_of(con) != self.group_of(cur) and self.group_of(con) not in self.BASE_GROUPS \
+                and self.group_of(cur) in self.GROUPS.values() and not con.assumed and not self.cross_group_ok(cur, con):
+            # a VERIFIED contract written by another property group, with preconditions this caller's proof was not built
+            # for: the caller executes the real code of the callee instead (inlining is always sound)
+            return None
         if cur is not None:
             if fi.qualname in cur.inline:
                 return None
